@@ -564,8 +564,9 @@ def main(argv):
         for (i, obs, py, err), case in zip(res, cases):
             if obs["out"].startswith("machinery:"):
                 machinery_failure(PID, f"gamma failed on case {case['id']}: {obs['out']}")
-            if canon_outcome(obs) == canon_outcome(case["exp"]) and case["exp"]["out"] != "crash" and not case.get("dev"):
-                n_equal += 1
+            same = canon_outcome(obs) == canon_outcome(case["exp"])
+            n_equal += 1 if same else 0
+            if same and case["exp"]["out"] != "crash" and not case.get("dev"):
                 k = nontrivial_key(case, obs)
                 if k:
                     rep.note_nontrivial(k)
@@ -576,6 +577,7 @@ def main(argv):
                             "expected": case["exp"], "observed": obs, "python": py})
         rep.extra["replayed"] = len(cases)
         rep.extra["replay_equal_to_printed_outcome"] = n_equal
+        rep.extra["mc_cases_with_deviation"] = sum(1 for c in cases if c.get("dev"))
 
         # ---- random cases beyond the bounds
         nrand = 2500 if tier == "quick" else 25000
